@@ -204,8 +204,11 @@ def _build(cfg):
         route = route0 % 6
         c0 = PixCoord(cx, cy) if route > 1 else PixCoord(cx + 3.25, cy - 1.5)
         f = 1.0 if route != 1 else 1.75
+        # masks describe the shape whatever the include flag says (to_mask never looks at it): a third of the
+        # configurations are exclusion regions, another third spell it 0
+        meta = [None, {'include': False}, {'include': 0}][(route0 // 24) % 3]
         if s == 'circle':
-            reg = CirclePixelRegion(c0, cfg['r'] * f)
+            reg = CirclePixelRegion(c0, cfg['r'] * f, meta=meta)
         else:
             # the angle is handed over in degrees, radians, arcminutes or arcseconds (by configuration hash);
             # the conversion from radians costs at most a few ulp, far below the 1e-8 tolerance
@@ -213,7 +216,7 @@ def _build(cfg):
                    (math.degrees(cfg['theta']) * 3600.0) * u.arcsec][(route0 // 6) % 4 if cfg.get('ptype') == 'generic' else 0]
             # ('nice' phases keep degrees: the listed kernel defects sit exactly on pixel corners/edges and move with
             # every ulp of theta, so the known-finding inputs must be reproduced bit for bit)
-            reg = EllipsePixelRegion(c0, 2.0 * cfg['rx'] * f, 2.0 * cfg['ry'] * f, angle=ang)
+            reg = EllipsePixelRegion(c0, 2.0 * cfg['rx'] * f, 2.0 * cfg['ry'] * f, angle=ang, meta=meta)
         if route <= 1 and max(cfg.get('r', 0), cfg.get('rx', 0), cfg.get('ry', 0)) <= 64.0:
             reg.bounding_box
             reg.to_mask('center')
@@ -394,6 +397,25 @@ def _mask_arrays(res, case, m):
     return data, int(bb.ixmin), int(bb.iymin)
 
 
+def _use_mask(m):
+    """What a caller does with a mask (values under a bad-pixel mask, weighted cutout, image): none of it may change
+    the mask.  Exceptions are C05's business."""
+    try:
+        bb = m.bbox
+        ny, nx = max(int(bb.iymax) + 2, 4), max(int(bb.ixmax) + 2, 4)
+        if ny * nx > 250000:
+            return
+        img = np.arange(ny * nx, dtype=float).reshape(ny, nx) + 1.0
+        bad = (np.add.outer(np.arange(ny), np.arange(nx)) % 3) == 0
+        m.get_values(img, mask=bad)
+        m.get_values(img)
+        m.multiply(img, fill_value=-3.0)
+        m.cutout(img, fill_value=5.0)
+        m.to_image((ny, nx))
+    except Exception:          # noqa: BLE001
+        pass
+
+
 def _exact_kwargs(cfg):
     import json
     import zlib
@@ -450,6 +472,8 @@ def check_exact(res, trk, cfg, vias=('to_mask', 'kernel')):
         except Exception as exc:
             res.violation(ID, 'unexpected_exception', _case(cfg, 'to_mask'), f"to_mask('exact') raised {type(exc).__name__}: {exc}")
             return
+        if max(cfg.get('r', 0), cfg.get('rx', 0), cfg.get('ry', 0)) <= 10.5:
+            _use_mask(m)        # the mask is judged AFTER its owner has used it on an image
         got = _mask_arrays(res, _case(cfg, 'to_mask'), m)
         if got is None:
             return
